@@ -1008,6 +1008,10 @@ func (ro *RedisOutput) sendCmdsBatch(replayWait usync.WaitCloser, conn client.Re
 						cpInDbs[lastCmd.Db] = struct{}{}
 						batcher.Put("hset", checkpointKv.Key, checkpointKv.RunIdKey(), runId, checkpointKv.VersionKey(), config.Version)
 					}
+				} else {
+					// nothing is queued, so the database the connection is in is not known here : it may hold no
+					// record of this run yet, and an offset without its run id reads as "no checkpoint" after a restart
+					batcher.Put("hset", checkpointKv.Key, checkpointKv.RunIdKey(), runId, checkpointKv.VersionKey(), config.Version)
 				}
 				batcher.Put("hset", checkpointKv.Key, checkpointKv.OffsetKey(), lastOffset)
 			} else {
